@@ -148,3 +148,40 @@ def cte_event(kind, cte_cache, ops_key, cte, stub, sequence):
         fh.flush()
     except Exception:  # noqa  - a hook must never change what the library does
         pass
+
+
+def _text_cols(model, text):
+    """column names a SQL term's text really mentions (quoted identifiers)"""
+    if text is None:
+        return None
+    q = _re.escape(model.identifier_quote)
+    return sorted(set(_re.findall(q + "([^" + q + "]*)" + q, str(text))))
+
+
+def merge_event(model, subsql, terms, declared, merged):
+    """one event per SQL extend-merge decision: both SELECT lists with declared and textual dependencies
+    (written to the path in DATA_ALGEBRA_VERIF_TRACE_MERGE, suffix: process id)"""
+    path = os.environ.get("DATA_ALGEBRA_VERIF_TRACE_MERGE")
+    if not path:
+        return
+    path = path + "." + str(os.getpid())
+    if _state.get("merge_path") != path:
+        _state["merge_fh"] = open(path, "a")
+        _state["merge_path"] = path
+    fh = _state["merge_fh"]
+    try:
+        def side(tdict, ddict):
+            out = []
+            for k in tdict.keys():
+                t = tdict[k]
+                out.append({"c": str(k), "pass": (t is None) or (t == k),
+                            "declared": sorted(str(x) for x in ddict.get(k, [])),
+                            "text": [] if (t is None or t == k) else _text_cols(model, t)})
+            return out
+        ev = {"sqlmerge": bool(merged), "seq": _state["seq"],
+              "sub": side(subsql.terms, subsql.declared_term_dependencies), "our": side(terms, declared)}
+        _state["seq"] += 1
+        fh.write(json.dumps(ev) + "\n")
+        fh.flush()
+    except Exception:  # noqa  - a hook must never change what the library does
+        pass
